@@ -28,7 +28,9 @@ def replay(prop, path):
     print(json.dumps(dict(exp=ev.get("exp"), out=ev.get("out"), diff=ev.get("diff")), indent=1)[:6000])
     bad = bool(ev.get("diff"))
     if "exp" not in ev and case.get("_trace"):
-        _, rej = vlib.validate_trace(case["_trace"], tp + ".out", shards=1)
+        # some trace modules need constants from the harness (the schema exported from the real descriptors)
+        tenv = TRACE_ENV[case["_trace"]](b, case) if case["_trace"] in TRACE_ENV else None
+        _, rej = vlib.validate_trace(case["_trace"], tp + ".out", shards=1, env=tenv)
         bad = bool(rej)
     if bad:
         print("VIOLATION property=%s replay=%s" % (prop, path))
@@ -37,6 +39,7 @@ def replay(prop, path):
     return 0
 
 
+TRACE_ENV = {}      # trace module -> f(binary, case) -> environment for its TLC run (for --replay)
 MODULE_OF = {}      # property -> default harness module name (for --replay)
 HARNESS_PKGS = {}   # property -> harness packages to link
 
